@@ -57,6 +57,8 @@ func dfsScenarios() []*rpcsim.Scenario {
 		one("dfs-fclose-ack-result", 1, fclose, ack1, res0),
 		one("dfs-cancel-ack-tick", 1, cancel, ack1, adv3),
 		one("dfs-close-cancel-result", 1, closeG, cancel, res0),
+		one("dfs-fclose-cancel-result", 1, fclose, cancel, res0),
+		one("dfs-fclose-ack-tick", 1, fclose, ack1, adv3),
 		{Name: "dfs-two-calls-fclose-ack", Cfg: rpcsim.Config{MaxRetries: 1, Interval: 3},
 			Calls: []rpcsim.Option{{Kind: "start", ID: 1, Seq: 1, Body: 7}, {Kind: "start", ID: 2, Seq: 3, Body: 8}},
 			Env:   []rpcsim.Option{fclose, {Kind: "ack", IDs: []int64{2}}}},
